@@ -262,3 +262,84 @@ def run_localnarrow(prog, ctx=None):
             res.ob("%s:%s = %s" % (f.qn, vn, norm(show(src, f))[:50]), ok, f, m.get("l", f.line) or f.line,
                    "" if ok else "`%s` (%s) receives `%s` whose value %s may leave [%d, %d]: the upper bits are dropped" % (vn, VT.get("s"), norm(show(src, f))[:60], rv, tr.lo, tr.hi))
     return res
+
+
+def run_deadshadow(prog, ctx=None):
+    """DEADSHADOW: a value stored into a local that hides another local of the same name is read somewhere.  Where a block
+    declares a second variable of a name that is already in use and the function then assigns to it without any read of it
+    being reachable from the assignment, while the hidden variable is read afterwards, the assignment was meant for the
+    hidden variable: that one keeps its old value (an unresolved type id, an error code) and the result computed in the
+    block is lost."""
+    res = Result("DEADSHADOW")
+    files = set(ctx.get("files", [])) if ctx else None
+    for f in funcs_of(prog, files):
+        decls = {}
+        order = []
+        for b, i, n in f.walk_all():
+            if n.get("k") == "decl":
+                for v in n["vars"]:
+                    if v["id"] not in decls:
+                        decls[v["id"]] = (v["n"], n.get("l", 0), v.get("t"))
+                        order.append(v["id"])
+        for p in f.params:
+            decls.setdefault(p["id"], (p["n"], f.line, p.get("t")))
+        byname = {}
+        for vid, (nm, ln, t) in decls.items():
+            byname.setdefault(nm, []).append((ln, vid))
+        shadows = {}
+        for nm, lst in byname.items():
+            if len(lst) < 2:
+                continue
+            lst.sort()
+            for ln, vid in lst[1:]:
+                shadows[vid] = lst[0][1]
+        if not shadows:
+            continue
+        reads = {}        # var id -> [(block id, idx)]
+        stores = {}       # var id -> [(block id, idx, node)]
+        for b, i, e in f.elements():
+            lhs = set()
+            for n in walk_own(e):
+                if n.get("k") == "bin" and n.get("op") == "=":
+                    l = strip(n["a"], lvalue_to_rvalue=False)
+                    if l.get("k") == "ref" and "id" in l["d"]:
+                        lhs.add(id(l))
+                        stores.setdefault(l["d"]["id"], []).append((b.id, i, n))
+            for n in walk_own(e):
+                if n.get("k") == "ref" and "id" in n["d"] and id(n) not in lhs:
+                    reads.setdefault(n["d"]["id"], []).append((b.id, i))
+        for b in f.blocks.values():
+            if b.term and b.term.get("cond") is not None:
+                lhs = set()
+                for n in walk(b.term["cond"]):
+                    if n.get("k") == "bin" and n.get("op") == "=":
+                        l = strip(n["a"], lvalue_to_rvalue=False)
+                        if l.get("k") == "ref":
+                            lhs.add(id(l))
+                for n in walk(b.term["cond"]):
+                    if n.get("k") == "ref" and "id" in n["d"] and id(n) not in lhs and "sid" not in n:
+                        reads.setdefault(n["d"]["id"], []).append((b.id, len(b.el)))
+        for inner, outer in sorted(shadows.items()):
+            for sb, si, sn in stores.get(inner, []):
+                def after(lst):
+                    return any((rb == sb and ri > si) or (rb != sb and rb in f.reachable_from(sb)) for rb, ri in lst)
+                dead = not after(reads.get(inner, []))
+                # the hidden variable is live here: a read of it is reachable without passing an assignment to it
+                defs_o = {}
+                for ob, oi, on in stores.get(outer, []):
+                    defs_o.setdefault(ob, []).append(oi)
+                live = False
+                if dead:
+                    reach = {sb} | set(f.reachable_from(sb, avoid=set(defs_o) - {sb}))
+                    for rb, ri in reads.get(outer, []):
+                        if rb == sb and ri > si and not any(si < d < ri for d in defs_o.get(sb, [])):
+                            live = True
+                        elif rb != sb and rb in reach and rb not in defs_o:
+                            live = True
+                        elif rb != sb and rb in defs_o and any(p in reach for p in f.blocks[rb].preds) and ri <= min(defs_o[rb]):
+                            live = True
+                bad = dead and live
+                res.ob("%s:%s at line %s" % (f.qn, norm(show(sn, f))[:50], sn.get("l", f.line)), not bad, f, sn.get("l", f.line) or f.line,
+                       "" if not bad else "`%s` stores into the inner `%s` (declared at line %s) that hides an outer variable of the same name; the value is never read, and the outer `%s` is read afterwards with its old value" % (
+                           norm(show(sn, f))[:60], decls[inner][0], decls[inner][1], decls[inner][0]))
+    return res
